@@ -3,6 +3,7 @@
 package main
 
 import (
+	"path/filepath"
 	"bytes"
 	"context"
 	"crypto/tls"
@@ -26,8 +27,9 @@ type c18Server struct {
 }
 
 type c18Case struct {
-	Bundle  string // one | two | both
+	Bundle  string // one | two | both | … | rotating:<ca2|ca1|both> (one file path whose content is rewritten before the signer is built)
 	Servers []c18Server
+	Before  []string `json:",omitempty"` // rotating bundles: contents the SAME path held earlier, each used by a signer that signed once
 }
 
 func (k c18Case) genuineAt(i int) bool {
@@ -47,17 +49,17 @@ func (k c18Case) genuine(s c18Server) bool {
 	}
 	switch s.Identity {
 	case "ca1":
-		return true
+		return k.Bundle != "rotating:ca2"
 	case "ca2":
-		return k.Bundle != "one"
+		return k.Bundle != "one" && k.Bundle != "rotating:ca1"
 	}
 	return false
 }
 
 func c18Why(k c18Case, s c18Server) string {
 	switch {
-	case s.Identity == "ca2" && k.Bundle == "one":
-		return "certificate issued by a CA that is not in the configured bundle"
+	case s.Identity == "ca2" && (k.Bundle == "one" || k.Bundle == "rotating:ca1"), s.Identity == "ca1" && k.Bundle == "rotating:ca2":
+		return "certificate issued by a CA that is not in the configured bundle (as the file reads now)"
 	case s.Identity == "foreign":
 		return "certificate issued by a foreign CA"
 	case s.Identity == "selfsigned":
@@ -84,6 +86,31 @@ func c18Run(c *ev.Ctx, k c18Case) {
 		// the same two CAs in other legal layouts (every one of them configures CA 1 and CA 2)
 		"two-no-final-newline": {c17PKI.CA1NoNLFile, c17PKI.CA2File}, "two-unrelated-first-no-final-newline": {c17PKI.PadCA1NoNLFile, c17PKI.CA2File},
 		"both-crlf-with-text": {c17PKI.BothCRLFFile}, "two-reversed": {c17PKI.CA2File, c17PKI.CA1NoNLFile}}[k.Bundle]
+	if strings.HasPrefix(k.Bundle, "rotating:") {
+		// one configured path; its content changes over the life of the process (a rotated CA bundle). Earlier contents were
+		// each loaded by a signer that completed a call; the signer under test is built after the last rewrite.
+		path := filepath.Join(c17PKI.dir, "rotating-bundle.pem")
+		content := map[string]string{"ca1": c17PKI.CA1File, "ca2": c17PKI.CA2File, "both": c17PKI.BothFile}
+		for _, b := range k.Before {
+			data, _ := os.ReadFile(content[b])
+			os.WriteFile(path, data, 0o600)
+			c17Farm.servers[0].reset()
+			id := map[string]string{"ca1": "ca1", "ca2": "ca2", "both": "ca1"}[b]
+			c17Farm.servers[0].mu.Lock()
+			c17Farm.servers[0].tls = c17PKI.serverTLS(id, c17Farm.servers[0].ip, tls.VersionTLS12, tls.VersionTLS13, tls.RequireAndVerifyClientCert, false)
+			c17Farm.servers[0].ans = answer{Kind: "ok", Key: c17CertLines[0]}
+			c17Farm.servers[0].mu.Unlock()
+			if sg, e := crypki.NewSigner(crypki.SignerConfig{TLSClientKeyFile: c17PKI.ClientKeyFile, TLSClientCertFile: c17PKI.ClientCertFile, TLSCACertFiles: []string{path},
+				CrypkiEndpoints: []string{"127.0.0.1"}, CrypkiPort: uint(c17Farm.port), Retries: 1, PerTryTimeout: 15 * time.Second}); e == nil {
+				cx, cancel := context.WithTimeout(context.Background(), 60*time.Second)
+				sg.Sign(cx, &proto.SSHCertificateSigningRequest{KeyMeta: &proto.KeyMeta{Identifier: "slot"}, Principals: []string{"alice"}, PublicKey: c17CertLines[0], Validity: 60})
+				cancel()
+			}
+		}
+		data, _ := os.ReadFile(content[strings.TrimPrefix(k.Bundle, "rotating:")])
+		os.WriteFile(path, data, 0o600)
+		files = []string{path}
+	}
 	for i, s := range c17Farm.servers {
 		s.reset()
 		if i >= len(k.Servers) {
@@ -188,7 +215,7 @@ func c18Run(c *ev.Ctx, k c18Case) {
 }
 
 func checkC18(c *ev.Ctx) {
-	c.Rule("real crypki.NewSigner / Sign over real TLS against harness gRPC servers on 127.0.0.1..3:port whose TLS personality is swapped per configuration: CA bundle {one file, two files, one file with two certificates; plus 4 other legal layouts of the two-CA bundle: no newline after the last END line, an unrelated CA in front, CRLF with text between blocks, reversed order} x server identity {configured CA 1, CA 2, foreign CA, self-signed, expired, not yet valid, other name} x protocol range {1.0-1.1, 1.2, 1.3, 1.0-1.3} x client-certificate policy {require+verify, request, ignore, request while naming only a foreign client CA, verify-if-given against a foreign client CA} (420 single-endpoint configurations), plus endpoint lists of length 2..3 with every placement of one genuine server among impostors of 3 kinds incl. a configured-CA certificate that names the first endpoint (thorough: 7 kinds, two genuine servers); servers record handshakes, negotiated version, peer certificates and whether the RPC handler ran. non-trivial = every configuration; distinct by configuration")
+	c.Rule("real crypki.NewSigner / Sign over real TLS against harness gRPC servers on 127.0.0.1..3:port whose TLS personality is swapped per configuration: CA bundle {one file, two files, one file with two certificates; plus 4 other legal layouts of the two-CA bundle: no newline after the last END line, an unrelated CA in front, CRLF with text between blocks, reversed order; and a single path whose content is rewritten between signers (6 earlier-content histories x 3 current contents)} x server identity {configured CA 1, CA 2, foreign CA, self-signed, expired, not yet valid, other name} x protocol range {1.0-1.1, 1.2, 1.3, 1.0-1.3} x client-certificate policy {require+verify, request, ignore, request while naming only a foreign client CA, verify-if-given against a foreign client CA} (420 single-endpoint configurations), plus endpoint lists of length 2..3 with every placement of one genuine server among impostors of 3 kinds incl. a configured-CA certificate that names the first endpoint (thorough: 7 kinds, two genuine servers); servers record handshakes, negotiated version, peer certificates and whether the RPC handler ran. non-trivial = every configuration; distinct by configuration")
 	c.Assume("TLS and gRPC libraries run with their own goroutines and real time; outcomes are deterministic functions of the configuration; handshake internals are trusted")
 	c17PKI = newPKI()
 	defer os.RemoveAll(c17PKI.dir)
@@ -224,6 +251,17 @@ func checkC18(c *ev.Ctx) {
 			for _, pr := range []string{"1.2", "1.3"} {
 				c18Run(c, c18Case{Bundle: b, Servers: []c18Server{{id, pr, "require"}}})
 				c18Run(c, c18Case{Bundle: b, Servers: []c18Server{{"foreign", "1.2", "require"}, {id, pr, "require"}}})
+				n += 2
+			}
+		}
+	}
+	// a CA bundle file whose content is rewritten between signers (rotation): the signer built last trusts what the file
+	// reads NOW, whatever earlier signers in the process loaded from the same path
+	for _, now := range []string{"ca1", "ca2", "both"} {
+		for _, before := range [][]string{nil, {"ca1"}, {"ca2"}, {"both"}, {"ca1", "ca2"}, {"ca2", "ca1"}} {
+			for _, id := range []string{"ca1", "ca2", "foreign"} {
+				c18Run(c, c18Case{Bundle: "rotating:" + now, Before: before, Servers: []c18Server{{id, "1.2", "require"}}})
+				c18Run(c, c18Case{Bundle: "rotating:" + now, Before: before, Servers: []c18Server{{id, "1.3", "require"}, {"ca1", "1.2", "require"}, {"ca2", "1.3", "require"}}})
 				n += 2
 			}
 		}
